@@ -1,6 +1,303 @@
-//! Harness for property C11 (stub: not built yet).
+//! Harness for property C11 — full-text index retrieves exactly the matching documents, ranked
+//! stably; same answers after compaction and after loading what any (interrupted) flush left.
+//!
+//! Per case (a list of op lines, see `world.rs`): the real `anda_db_tfs::BM25Index` is driven through
+//! its public API, the Lean model (`drv_c11`) is sent the derived lines and must answer the same
+//! (correspondence), and an independent naive inverted index built with the same tokenizer decides
+//! the property itself (oracle): retrieval sets of term and boolean queries, counters, finite
+//! non-negative scores, order, top-k prefix for every k, repeat stability, answers after
+//! compaction / reload / every crash prefix of every flush, shape of the flush write sequence.
+
+mod query;
+mod store;
+mod world;
+
+use query::{all_shapes, fill, gen_tree};
+use std::panic::{AssertUnwindSafe, catch_unwind};
+use vh_common::{Args, ModelProc, Report, Rng, read_corpus, read_replay, serde_json::json, shrink};
+use world::{CaseResult, VOCAB, World, show_params};
+
+fn params_table() -> Vec<Option<(f32, f32)>> {
+    vec![
+        None,
+        Some((1.2, 0.75)),
+        Some((0.0, 0.0)),
+        Some((f32::NAN, f32::NAN)),
+        Some((f32::INFINITY, 0.5)),
+        Some((f32::NEG_INFINITY, -1.0)),
+        Some((-3.0, 2.0)),
+        Some((f32::MAX, 1.0)),
+        Some((1e-30, 1e-30)),
+        Some((1000.0, 1.0)),
+        Some((5000.0, 0.5)),
+        Some((f32::from_bits(1), f32::from_bits(0x8000_0001))),
+        Some((-0.0, -0.0)),
+        Some((2.0, f32::NAN)),
+        Some((f32::from_bits(0xffc0_0001), 0.3)),
+    ]
+}
+
+fn words(rng: &mut Rng, lo: usize, hi: usize) -> Vec<String> {
+    let n = lo + rng.usize(hi - lo + 1);
+    (0..n).map(|_| rng.pick(&VOCAB).to_string()).collect()
+}
+
+/// One random history with queries and persistence events.
+fn gen_case(rng: &mut Rng, shapes: &[query::Tree]) -> Vec<String> {
+    let mut ops = Vec::new();
+    let overload = *rng.pick(&[524288usize, 524288, 0, 1, 48, 90, 160]);
+    if overload != 524288 {
+        ops.push(format!("cfg {overload}"));
+    }
+    let ptab = params_table();
+    let n_ops = 8 + rng.usize(22);
+    let max_id = 3 + rng.below(5);
+    let mut texts: std::collections::BTreeMap<u64, Vec<String>> = Default::default();
+    for _ in 0..n_ops {
+        let r = rng.below(100);
+        if r < 34 {
+            let id = 1 + rng.below(max_id);
+            let ws = if rng.chance(1, 14) { vec![] } else { words(rng, 1, 5) };
+            if !texts.contains_key(&id) && !ws.is_empty() {
+                texts.insert(id, ws.clone());
+            }
+            ops.push(format!("ins {id} {}", ws.join(" ")).trim_end().to_string());
+        } else if r < 54 {
+            let id = 1 + rng.below(max_id);
+            let orig = texts.get(&id).cloned();
+            let ws = match (rng.below(10), orig) {
+                (0..=4, Some(o)) => o,
+                (5..=6, Some(o)) => o.into_iter().filter(|_| rng.chance(1, 2)).collect(),
+                (7, _) => vec![],
+                _ => words(rng, 1, 3),
+            };
+            texts.remove(&id);
+            ops.push(format!("rem {id} {}", ws.join(" ")).trim_end().to_string());
+        } else if r < 60 {
+            let n = rng.usize(3);
+            let ids: Vec<u64> = (0..n).map(|_| 1 + rng.below(max_id)).collect();
+            for i in &ids {
+                texts.remove(i);
+            }
+            ops.push(format!("purge {}", vh_common::join(ids, ",")).trim_end().to_string());
+        } else if r < 70 {
+            let p = show_params(*rng.pick(&ptab));
+            ops.push(format!("search {p} {}", words(rng, 1, 3).join(" ")));
+        } else if r < 86 {
+            let p = show_params(*rng.pick(&ptab));
+            let t = if rng.chance(1, 2) { fill(rng.pick(shapes), rng, &VOCAB) } else { gen_tree(rng, &VOCAB, 3) };
+            ops.push(format!("adv {p} {}", t.unparse()));
+        } else if r < 92 {
+            ops.push("flush".into());
+        } else if r < 95 {
+            ops.push(format!("crashload {}", rng.below(6)));
+        } else if r < 97 {
+            ops.push("reload".into());
+        } else {
+            ops.push("compact".into());
+        }
+    }
+    // closing sweep: every case ends with queries and a flush whose prefixes are all loaded
+    for _ in 0..2 {
+        ops.push(format!("search def {}", words(rng, 1, 2).join(" ")));
+        ops.push(format!("adv def {}", gen_tree(rng, &VOCAB, 3).unparse()));
+    }
+    ops.push("flush".into());
+    ops
+}
+
+fn run_case(ops: &[String], model: Option<&mut ModelProc>) -> CaseResult {
+    let r = catch_unwind(AssertUnwindSafe(|| {
+        let mut w = World::new(model);
+        w.run(ops);
+        w.res
+    }));
+    match r {
+        Ok(res) => res,
+        Err(e) => {
+            let msg = e.downcast_ref::<String>().cloned().or_else(|| e.downcast_ref::<&str>().map(|s| s.to_string())).unwrap_or_else(|| "panic".into());
+            let mut res = CaseResult::default();
+            res.oracle.push(("panic".into(), "panic in the code under test".into(), "no panic".into(), msg));
+            res
+        }
+    }
+}
+
+struct Totals {
+    searches: u64,
+    prefixes: u64,
+    bits_differ: u64,
+}
+
+fn absorb(report: &mut Report, tot: &mut Totals, ops: &[String], res: CaseResult, model: &mut Option<ModelProc>, driver: &Option<std::path::PathBuf>) {
+    report.case(&res.canon, res.nontrivial);
+    report.model_compared += res.compared;
+    tot.searches += res.searches;
+    tot.prefixes += res.crash_prefixes;
+    tot.bits_differ += res.score_bits_differ_between_calls;
+    for h in &res.hits {
+        report.hit(h);
+    }
+    report.hit_n("ops", ops.len() as u64);
+    if !res.disagreements.is_empty() {
+        // the driver's state is unknown after a disagreement: restart it, shrink, report
+        if let Some(p) = driver {
+            *model = Some(ModelProc::spawn(p).expect("driver"));
+        }
+        let small = shrink(ops.to_vec(), |cand| !run_case(cand, model.as_mut()).disagreements.is_empty(), 300);
+        let r2 = run_case(&small, model.as_mut());
+        let (what, m, i) = r2.disagreements.first().cloned().unwrap_or_else(|| res.disagreements[0].clone());
+        report.disagreement(&what, &small, &m, &i);
+    }
+    if res.oracle.iter().all(|o| o.0 == world::KNOWN_STALE) && report.histogram.contains_key("known:stale") {
+        // the known finding is reported once (shrunk); further manifestations are only counted
+        if !res.oracle.is_empty() {
+            report.hit("known:stale");
+        }
+    } else if let Some((key, _, _, _)) = res.oracle.iter().find(|o| o.0 != world::KNOWN_STALE).or(res.oracle.first()).cloned() {
+        if key == world::KNOWN_STALE {
+            report.hit("known:stale");
+        }
+        let small = shrink(ops.to_vec(), |cand| run_case(cand, None).oracle.iter().any(|o| o.0 == key), 300);
+        let r2 = run_case(&small, None);
+        let (key, what, exp, obs) = r2.oracle.iter().find(|o| o.0 == key).cloned().unwrap_or_else(|| res.oracle[0].clone());
+        report.oracle_failure(&key, &what, &small, &exp, &obs);
+        for o in res.oracle.iter().skip(1) {
+            if o.0 != key && o.0 != world::KNOWN_STALE {
+                report.oracle_failure(&o.0, &o.1, ops, &o.2, &o.3);
+            }
+        }
+    }
+}
+
 fn main() {
-    let a = vh_common::Args::parse();
-    let r = vh_common::Report::new("C11", &a, "stub");
-    r.write(&a);
+    let args = Args::parse();
+    let mut report = Report::new(
+        "C11",
+        &args,
+        "a case (one history) is non-trivial if an insert succeeded or some query returned a non-empty result; distinct = distinct op lists",
+    );
+    let mut model = ModelProc::from_args(&args);
+    let mut tot = Totals { searches: 0, prefixes: 0, bits_differ: 0 };
+    let shapes = all_shapes(3);
+
+    if let Some(rp) = &args.replay {
+        let ops = read_replay(rp);
+        let res = run_case(&ops, model.as_mut());
+        absorb(&mut report, &mut tot, &ops, res, &mut model, &args.driver);
+        report.write(&args);
+        return;
+    }
+
+    // ---- corpus first
+    if let Some(dir) = &args.corpus {
+        for (name, ops) in read_corpus(dir) {
+            let res = run_case(&ops, model.as_mut());
+            report.hit(&format!("corpus:{name}"));
+            report.sample(json!({"corpus": name, "ops": ops.iter().take(12).collect::<Vec<_>>()}));
+            absorb(&mut report, &mut tot, &ops, res, &mut model, &args.driver);
+        }
+    }
+
+    // ---- comparator on special bit patterns (model vs f32::total_cmp-based reference is the oracle)
+    comparator_cases(&mut report, &mut model, &args);
+
+    // ---- every boolean tree shape to depth 3 over a fixed small history
+    let n_shape_fill = args.budget(1, 6);
+    for (si, shape) in shapes.iter().enumerate() {
+        for f in 0..n_shape_fill {
+            let mut rng = Rng::for_case(args.seed ^ 0x5eed, (si as u64) * 16 + f);
+            let mut ops: Vec<String> = vec![
+                "ins 1 alpha beta beta".into(),
+                "ins 2 beta gamma run".into(),
+                "ins 3 running fox lazy".into(),
+                "ins 4 foxes well-known alpha".into(),
+                "ins 5 delta".into(),
+                "rem 5 gamma".into(),
+                "ins 6 Beta lazy lazy lazy".into(),
+            ];
+            ops.push(format!("adv def {}", fill(shape, &mut rng, &VOCAB).unparse()));
+            let res = run_case(&ops, model.as_mut());
+            report.hit("shape-case");
+            absorb(&mut report, &mut tot, &ops, res, &mut model, &args.driver);
+        }
+    }
+
+    // ---- random histories
+    let n_cases = args.budget(700, 60_000);
+    for i in 0..n_cases {
+        let mut rng = Rng::for_case(args.seed, i);
+        let ops = gen_case(&mut rng, &shapes);
+        let res = run_case(&ops, model.as_mut());
+        if i < 3 {
+            report.sample(json!({"case": i, "ops": ops}));
+        }
+        absorb(&mut report, &mut tot, &ops, res, &mut model, &args.driver);
+        if report.oracle_failures.len() >= 12 || report.disagreements.len() >= 12 {
+            break;
+        }
+    }
+
+    report.measured.insert("searches_checked".into(), json!(tot.searches));
+    report.measured.insert("crash_prefixes_loaded".into(), json!(tot.prefixes));
+    report.measured.insert("topk_calls_whose_score_bits_differ_from_the_full_call".into(), json!(tot.bits_differ));
+    report.measured.insert("boolean_tree_shapes_depth_le_3".into(), json!(shapes.len()));
+    report.notes.push("scores are checked finite and non-negative on every returned result (measured in f32; the theorem score_nonneg_real is over the reals)".into());
+    report.write(&args);
+}
+
+/// `compare_scored_docs` on hand-picked and random bit patterns: the model's comparator against a
+/// reference written with `f32::total_cmp` (what the code calls), through `cmp` and `topk` lines.
+fn comparator_cases(report: &mut Report, model: &mut Option<ModelProc>, args: &Args) {
+    let Some(m) = model.as_mut() else { return };
+    let special: [u32; 16] = [
+        0, 0x8000_0000, 1, 0x8000_0001, 0x3f80_0000, 0xbf80_0000, 0x7f7f_ffff, 0xff7f_ffff, 0x7f80_0000, 0xff80_0000, 0x7fc0_0000, 0xffc0_0000,
+        0x7f80_0001, 0xff80_0001, 0x7fff_ffff, 0x0080_0000,
+    ];
+    let reference = |a: (u64, u32), b: (u64, u32)| -> std::cmp::Ordering {
+        let (x, y) = (f32::from_bits(a.1), f32::from_bits(b.1));
+        match (x.is_nan(), y.is_nan()) {
+            (true, true) => a.0.cmp(&b.0),
+            (true, false) => std::cmp::Ordering::Greater,
+            (false, true) => std::cmp::Ordering::Less,
+            (false, false) => y.total_cmp(&x).then(a.0.cmp(&b.0)),
+        }
+    };
+    let mut rng = Rng::for_case(args.seed, 0xc0ffee);
+    let n = args.budget(1500, 40_000);
+    for i in 0..n {
+        let pick = |rng: &mut Rng| if rng.chance(2, 3) { *rng.pick(&special) } else { rng.next_u64() as u32 };
+        let a = (rng.below(3), pick(&mut rng));
+        let b = (rng.below(3), pick(&mut rng));
+        let exp = match reference(a, b) {
+            std::cmp::Ordering::Less => "lt",
+            std::cmp::Ordering::Equal => "eq",
+            std::cmp::Ordering::Greater => "gt",
+        };
+        let line = format!("cmp {}:{} {}:{}", a.0, a.1, b.0, b.1);
+        let ans = m.ask(&line);
+        report.model_compared += 1;
+        report.hit("cmp");
+        report.case(&line, true);
+        if ans != exp {
+            report.disagreement("compare_scored_docs on bit patterns", &[line], &ans, exp);
+        }
+        // a whole list: the model's top-k against sort_by(reference) + truncate
+        if i % 10 == 0 {
+            let len = 1 + rng.usize(7);
+            let mut l: Vec<(u64, u32)> = (0..len as u64).map(|id| (id, pick(&mut rng))).collect();
+            rng.shuffle(&mut l);
+            let k = rng.usize(len + 2);
+            let line = format!("topk {k} {}", vh_common::join(l.iter().map(|(i, b)| format!("{i}:{b}")), ","));
+            l.sort_by(|a, b| reference(*a, *b));
+            l.truncate(k);
+            let exp = if l.is_empty() { "-".to_string() } else { vh_common::join(l.iter().map(|x| x.0), ",") };
+            let ans = m.ask(&line);
+            report.model_compared += 1;
+            report.hit("topk-bits");
+            if ans != exp {
+                report.disagreement("top_k_results on bit patterns", &[line], &ans, &exp);
+            }
+        }
+    }
 }
